@@ -60,7 +60,8 @@ struct Child
   bool timedout = false;
   int sig       = 0;
   int code      = 0;
-  std::string data; // payload (or "EXC:<what>" with code 4)
+  std::string data;     // payload (or "EXC:<what>" with code 4)
+  std::string progress; // what the child wrote with c10::progress() before finishing or dying
   std::string why() const
   {
     char b[96];
@@ -71,6 +72,20 @@ struct Child
     return b;
   }
 };
+
+// progress channel: inside a child, c10::progress("...") sends bytes to the parent immediately (they survive a crash)
+inline int& childFd() { static int fd = -1; return fd; }
+inline void progress(const std::string& s)
+{
+  if (childFd() < 0) return;
+  size_t off = 0;
+  while (off < s.size())
+  {
+    ssize_t w = write(childFd(), s.data() + off, s.size() - off);
+    if (w <= 0) { if (errno == EINTR) continue; break; }
+    off += (size_t)w;
+  }
+}
 
 inline double nowsec()
 {
@@ -91,6 +106,7 @@ inline Child run_child(const std::function<std::string()>& fn, double timeout_s 
   if (pid == 0)
   {
     close(fd[0]);
+    childFd() = fd[1];
     std::string out;
     int code = 0;
     try
@@ -112,13 +128,7 @@ inline Child run_child(const std::function<std::string()>& fn, double timeout_s 
       out  = "EXC:unknown";
       code = 4;
     }
-    size_t off = 0;
-    while (off < out.size())
-    {
-      ssize_t w = write(fd[1], out.data() + off, out.size() - off);
-      if (w <= 0) { if (errno == EINTR) continue; break; }
-      off += (size_t)w;
-    }
+    progress(std::string("\x1d") + out); // marker, then the payload
     close(fd[1]);
     _exit(code);
   }
@@ -144,7 +154,52 @@ inline Child run_child(const std::function<std::string()>& fn, double timeout_s 
   while (waitpid(pid, &st, 0) < 0 && errno == EINTR) {}
   if (WIFSIGNALED(st)) { r.signaled = true; r.sig = WTERMSIG(st); }
   else if (WIFEXITED(st)) r.code = WEXITSTATUS(st);
+  size_t mk = r.data.rfind('\x1d');
+  if (mk == std::string::npos) { r.progress = r.data; r.data.clear(); }
+  else { r.progress = r.data.substr(0, mk); r.data = r.data.substr(mk + 1); }
   r.ok = !r.timedout && !r.signaled && r.code == 0;
   return r;
+}
+
+// ---------------------------------------------------------------------------------------------
+// Oracle evaluations made inside a child, shipped to the parent as text
+// ---------------------------------------------------------------------------------------------
+struct Rec
+{
+  std::string oracle, key, detail;
+  bool ok;
+  double err = 0, tol = 0;
+};
+inline std::string packRecs(const std::vector<Rec>& v)
+{
+  std::string o;
+  char b[80];
+  for (auto& e : v)
+  {
+    snprintf(b, 80, "%.17g\x1f%.17g", e.err, e.tol);
+    o += e.oracle + "\x1f" + e.key + "\x1f" + (e.ok ? "1" : "0") + "\x1f" + b + "\x1f" + e.detail + "\x1e";
+  }
+  return o;
+}
+inline std::vector<Rec> unpackRecs(const std::string& s)
+{
+  std::vector<Rec> v;
+  size_t p = 0;
+  while (p < s.size())
+  {
+    size_t e = s.find('\x1e', p);
+    if (e == std::string::npos) break;
+    std::string line = s.substr(p, e - p);
+    p = e + 1;
+    std::vector<std::string> f;
+    size_t q = 0;
+    for (int i = 0; i < 5; i++) { size_t t = line.find('\x1f', q); if (t == std::string::npos) break; f.push_back(line.substr(q, t - q)); q = t + 1; }
+    if (f.size() != 5) continue;
+    Rec r{f[0], f[1], line.substr(q), f[2] == "1"};
+    r.err = strtod(f[3].c_str(), nullptr);
+    r.tol = strtod(f[4].c_str(), nullptr);
+    v.push_back(r);
+  }
+  return v;
 }
 } // namespace c10
